@@ -270,6 +270,8 @@ def report(mod, prop, tier, seed, jobs, results, wall, write=True, filtered=Fals
   nq = agg['q_sat'] + agg['q_unsat'] + agg['q_unknown']
   if induction and not vlines:
     incon.append('induction did not close (invariant not re-established, no observable violation found): ' + induction[0])
+  mv = _model_validation(seed)
+  if not mv.get('ok'): incon.append('environment model validation failed: %s' % (mv,))
   status = 'violation' if vlines else ('inconclusive' if (incon or errors or mismatches) else 'held')
   ev = dict(
     property_id=prop, tier=tier, seed=seed, level='other',
@@ -291,6 +293,7 @@ def report(mod, prop, tier, seed, jobs, results, wall, write=True, filtered=Fals
       exhaustive=(status == 'held'), status=status,
       known_findings_reported=sorted(kseen), inconclusive=incon[:10], errors=errors[:5], encoding_mismatches=mismatches[:5],
       solver='z3 %s (python API, incremental)' % _z3v(), repo_head=_repo_head(),
+      model_validation=mv,
     ),
     assumptions=info.get('assumptions', []),
     wall_s=round(wall, 2), violations=len(vlines))
@@ -307,6 +310,16 @@ def report(mod, prop, tier, seed, jobs, results, wall, write=True, filtered=Fals
     for x in mismatches[:3]: print('ENCODING-MISMATCH property=%s %s' % (prop, x))
     return 2
   return 0
+
+
+def _model_validation(seed):
+  try:
+    from symex import selfcheck
+    out, bad = selfcheck.run_all(seed)
+    out['ok'] = not bad
+    return out
+  except Exception as e:
+    return {'ok': False, 'error': repr(e)}
 
 
 def _z3v():
